@@ -11,7 +11,6 @@ import (
 	"runtime/pprof"
 	"slices"
 	"strconv"
-	"strings"
 	"sync/atomic"
 	"time"
 
@@ -115,13 +114,16 @@ type inst struct {
 	n         int // number of sets (2, or 1 for dsz.Bits which has no binary operation)
 	s         [2]set
 	m         [2]map[uint]bool
-	last      string // class of the last operation, only used in signatures
-	lastOther int    // side that was the argument of the last operation if it was a bulk one, else -1
-	lastSrc   int    // side that was cloned by the last operation if the clone was mutated, else -1
+	last      string // name and input class of the last operation, only used in signatures
+	lastClass string
+	lastOther int       // side that was the argument of the last operation if it was a bulk one, else -1
+	lastSrc   int       // side that was cloned by the last operation if the clone was mutated, else -1
+	buf       []uint    // scratch for enumerations
+	want      [2][]uint // sorted model per side, nil = stale
 }
 
 func newInst(c *config, start int) *inst {
-	x := &inst{c: c, n: 2, last: "start", lastOther: -1, lastSrc: -1}
+	x := &inst{c: c, n: 2, last: "start", lastOther: -1, lastSrc: -1, buf: make([]uint, 0, 80)}
 	if c.kind == kDsz {
 		x.n = 1
 	}
@@ -175,10 +177,17 @@ func backing(v reflect.Value) (lo, hi uintptr, ok bool) {
 	return 0, 0, false
 }
 
+func (x *inst) sortedOf(side int) []uint {
+	if x.want[side] == nil {
+		x.want[side] = sorted(x.m[side])
+	}
+	return x.want[side]
+}
+
 func (x *inst) Abstract() string {
-	var b []byte
+	b := make([]byte, 0, 64)
 	for i := 0; i < x.n; i++ {
-		for _, v := range sorted(x.m[i]) {
+		for _, v := range x.sortedOf(i) {
 			b = strconv.AppendUint(b, uint64(v), 10)
 			b = append(b, ' ')
 		}
@@ -251,7 +260,7 @@ func (x *inst) Apply(op space.Op) *space.Mismatch {
 				class = "new-beyond-capacity"
 			}
 		}
-		x.last = "Add/" + class
+		x.last, x.lastClass, x.want[side] = "Add", class, nil
 		got, has := s.add(v)
 		m[v] = true
 		if has && got != !was {
@@ -265,19 +274,19 @@ func (x *inst) Apply(op space.Op) *space.Mismatch {
 		} else if int(v>>6) >= words(s) {
 			class = "non-member-beyond-capacity"
 		}
-		x.last = "Remove/" + class
+		x.last, x.lastClass, x.want[side] = "Remove", class, nil
 		got, has := s.remove(v)
 		delete(m, v)
 		if has && got != was {
 			return mm(ep+".Remove|wrong-result|"+class, "%s = %v, want %v; set before: %v", op, got, was, without(m, v, was))
 		}
 	case "Contains":
-		x.last = "Contains"
+		x.last, x.lastClass = "Contains", ""
 		if got := s.contains(v); got != m[v] {
 			return mm(ep+".Contains|wrong-result|alphabet", "%s = %v, want %v; set %v", op, got, m[v], sorted(m))
 		}
 	case "Grow":
-		x.last = "Grow"
+		x.last, x.lastClass = "Grow", ""
 		s.grow(v) // membership must not change: verified by the battery that follows
 	case "Diff(B)", "Diff(A)", "Intersect(B)", "Intersect(A)", "Merge(B)", "Merge(A)":
 		b := meth[:len(meth)-3]
@@ -295,7 +304,7 @@ func (x *inst) Apply(op space.Op) *space.Mismatch {
 				class = "equal-words"
 			}
 		}
-		x.last = b + "/" + class
+		x.last, x.lastClass, x.want[side] = b, class, nil
 		s.bulk(b, o)
 		nm := make(map[uint]bool, len(m)+len(om))
 		switch b {
@@ -323,7 +332,7 @@ func (x *inst) Apply(op space.Op) *space.Mismatch {
 		// The battery that follows compares the receiver (result, Len) with nm and the argument
 		// with its unchanged model; a difference there is reported as other-operand-changed.
 	case "Clone+toggleInClone":
-		x.last = "Clone"
+		x.last, x.lastClass = "Clone", ""
 		x.lastSrc = side
 		c := s.clone()
 		if f, msg := content(c, m, sorted(m)); f != "" {
@@ -340,7 +349,7 @@ func (x *inst) Apply(op space.Op) *space.Mismatch {
 		// the source is compared with its unchanged model by the battery that follows
 		// (reported as source-changed-by-clone-mutation)
 	case "Clone+toggleInSource":
-		x.last = "Clone"
+		x.last, x.lastClass, x.want[side] = "Clone", "", nil
 		c := s.clone()
 		cm := copyModel(m)
 		want := sorted(cm)
@@ -382,7 +391,8 @@ func toggle(s set, m map[uint]bool, v uint) *space.Mismatch {
 
 // membership compares Len (all variants) and Contains on the probe values with the model.
 func membership(s set, m map[uint]bool) (string, string) {
-	for _, l := range s.lens() {
+	nl, ls := s.lens()
+	for _, l := range ls[:nl] {
 		if l.got != len(m) {
 			return l.name, fmt.Sprintf("%s() = %d, cardinality %d (members %v)", l.name, l.got, len(m), sorted(m))
 		}
@@ -401,7 +411,8 @@ func content(s set, m map[uint]bool, want []uint) (string, string) {
 	if f, msg := membership(s, m); f != "" {
 		return f, msg
 	}
-	got, _ := s.iter(len(want), 0)
+	var buf [16]uint
+	got, _ := s.iter(buf[:], len(want), 0)
 	if !eq(got, want) {
 		return "Iter", fmt.Sprintf("Iter yields %d values %v, want %d values %v", len(got), got, len(want), want)
 	}
@@ -426,14 +437,20 @@ func (x *inst) Check() *space.Mismatch {
 
 func (x *inst) checkSet(side int) *space.Mismatch {
 	s, m := x.s[side], x.m[side]
-	ep, after := s.ep(), "after-"+x.last
-	want := sorted(m)
+	ep := s.ep()
+	want := x.sortedOf(side)
 	n := len(want)
+	fail := func(sig, format string, a ...any) *space.Mismatch {
+		after := "after-" + x.last
+		if x.lastClass != "" {
+			after += "/" + x.lastClass
+		}
+		return mm(ep+"."+sig+"|"+after, format, a...)
+	}
 	if f, msg := content(s, m, want); f != "" {
 		switch {
 		case side == x.lastOther: // the argument of the bulk operation just executed
-			i := strings.IndexByte(x.last, '/')
-			return mm(ep+"."+x.last[:i]+"|other-operand-changed|"+x.last[i+1:], "the argument of the bulk operation no longer equals %v: %s", want, msg)
+			return mm(ep+"."+x.last+"|other-operand-changed|"+x.lastClass, "the argument of the bulk operation no longer equals %v: %s", want, msg)
 		case side == x.lastSrc:
 			return mm(ep+".Clone|source-changed-by-clone-mutation|"+f, "source %v after toggling a value in its clone: %s", want, msg)
 		}
@@ -444,7 +461,7 @@ func (x *inst) checkSet(side int) *space.Mismatch {
 		case "Iter":
 			k = "wrong-sequence"
 		}
-		return mm(ep+"."+f+"|"+k+"|"+after, "%s", msg)
+		return fail(f+"|"+k, "%s", msg)
 	}
 	// Cap() is only required not to change membership (the enumerations below also run after it)
 	s.capv()
@@ -452,13 +469,13 @@ func (x *inst) checkSet(side int) *space.Mismatch {
 		return mm(ep+".Cap|changed-membership|"+f, "after calling Cap(): %s", msg)
 	}
 	// iterator: Value may be read twice, or not at all, without disturbing the enumeration
-	if got, unstable := s.iter(n, 1); unstable {
-		return mm(ep+".Iter|value-unstable|"+after, "two Value() calls after one Next() differ; members %v", want)
+	if got, unstable := s.iter(x.buf, n, 1); unstable {
+		return fail("Iter|value-unstable", "two Value() calls after one Next() differ; members %v", want)
 	} else if !eq(got, want) {
-		return mm(ep+".Iter|wrong-sequence|"+after, "Iter (Value read twice per step) yields %d values %v, want %d values %v", len(got), got, n, want)
+		return fail("Iter|wrong-sequence", "Iter (Value read twice per step) yields %d values %v, want %d values %v", len(got), got, n, want)
 	}
-	if got, _ := s.iter(n, 2); len(got) != n {
-		return mm(ep+".Iter|wrong-sequence|"+after, "Iter: Next() returned true %d times (Value never read), want %d; members %v", len(got), n, want)
+	if got, _ := s.iter(x.buf, n, 2); len(got) != n {
+		return fail("Iter|wrong-sequence", "Iter: Next() returned true %d times (Value never read), want %d; members %v", len(got), n, want)
 	}
 	for e := 0; e < 2; e++ {
 		name, run := "Range", s.rangeFn
@@ -472,13 +489,13 @@ func (x *inst) checkSet(side int) *space.Mismatch {
 			name, run = "All", s.all
 		}
 		// full enumeration
-		got := make([]uint, 0, n+1)
+		got := x.buf[:0]
 		run(func(v uint) bool {
 			got = append(got, v)
 			return len(got) <= n+64 // always true unless the enumeration runs away
 		})
 		if !eq(got, want) {
-			return mm(ep+"."+name+"|wrong-sequence|"+after, "%s yields %d values %v, want %d values %v", name, len(got), got, n, want)
+			return fail(name+"|wrong-sequence", "%s yields %d values %v, want %d values %v", name, len(got), got, n, want)
 		}
 		// early stop after the k-th member, for every k
 		for k := 1; k <= n; k++ {
@@ -492,10 +509,10 @@ func (x *inst) checkSet(side int) *space.Mismatch {
 				return calls < k
 			})
 			if calls != k {
-				return mm(ep+"."+name+"|early-stop-ignored|"+after, "%s: callback returned false at call %d but was called %d times; members %v", name, k, calls, want)
+				return fail(name+"|early-stop-ignored", "%s: callback returned false at call %d but was called %d times; members %v", name, k, calls, want)
 			}
 			if !eq(got, want[:k]) {
-				return mm(ep+"."+name+"|wrong-sequence|"+after, "%s stopped after %d: got %v, want %v", name, k, got, want[:k])
+				return fail(name+"|wrong-sequence", "%s stopped after %d: got %v, want %v", name, k, got, want[:k])
 			}
 		}
 	}
